@@ -309,7 +309,7 @@ func (p *printer) expr(t *term.Term) string {
 			return "(ite (>= " + a(0) + " 0.0) (to_int " + a(0) + ") (- (to_int (- " + a(0) + "))))"
 		}
 		if p.mode.Int == "int" {
-			return p.fail("f2i of symbolic float in int mode 'int' with fp floats")
+			return p.fail("f2i of symbolic float in int mode int with fp floats: %s", t.String())
 		}
 		if t.Sort.Signed {
 			return fmt.Sprintf("((_ fp.to_sbv %d) RTZ %s)", t.Sort.Bits, a(0))
